@@ -139,14 +139,15 @@ Definition read_string (vt : option tyc) (lst : option (larm * lpay)) (j5 : opti
                 let looks_like_key :=
                   key0 || is_some fkrules || is_some key
                   || match fmt with Some SfId62 => true | _ => false end
-                  || match j5 with Some XKey => true | _ => false end in
+                  || match j5 with Some (XKey _) => true | _ => false end in
                 if negb looks_like_key
                 then Ok (TStr None rules open_text)
                 else Ok (TKey (match fmt with
                                | Some SfUuid => Some KUuid
                                | Some SfId62 => Some KId62
                                | Some SfNatural => Some KInformal
-                               | None => None
+                               (* otherwise what the key annotation says *)
+                               | None => match j5 with Some (XKey f) => f | _ => None end
                                end)
                               (match key with
                                | Some k =>
@@ -335,3 +336,61 @@ Definition norm_prop (env : enum_env) (idx : N) (d : prop) : rprop :=
          end)
         (clean_desc (p_desc d)))
      [(idx + 1)%N].
+
+(* ---- the fragment of declarations every component of which the annotations carry ---- *)
+(* (proved exact in proofs/RulesReadProofs.v: a compiled property reads back as
+   declared iff rt_ok holds) *)
+Definition pat_plain (p : option str) : bool :=
+  match p with
+  | Some p => negb (str_eqb p date_pattern) && negb (str_eqb p number_pattern)
+              && negb (str_eqb p Id62Gen.pattern_string)
+  | None => true
+  end.
+
+Inductive mode := MSingle | MArray | MMap.
+
+(* the declarations whose every component is carried by the annotations *)
+Definition no_list (t : fty) : bool :=
+  match t with
+  | TInt _ _ None | TStr _ _ None | TBytes _ | TBool _ None | TEnum _ None | TKey _ _ None
+  | TFloat _ None | TDate _ None | TDecimal _ None | TTimestamp None | TAny _ _ None
+  | TObject _ | TOneof None => true
+  | _ => false
+  end.
+
+Definition rt_fty (m : mode) (t : fty) : bool :=
+  (* list rules of map values are not read back *)
+  (match m with MMap => no_list t | _ => true end) &&
+  match m, t with
+  | _, TStr (Some _) _ _ => false            (* StringField.format is not written *)
+  | _, TStr None (Some r) _ => pat_plain (sr_pat r)
+  | _, TKey None e l =>
+      (* without a format the key is recognised by its annotations only; list
+         rules of an unformatted key make it read back as informal *)
+      match l with Some _ => false | None => match m with MSingle => true | _ => is_some e end end
+  | _, TKey (Some KUuid) _ _ | _, TKey (Some KId62) _ _ => true
+  (* custom pattern / informal live in (j5.ext.v1.field).key, which array items and map values do not have *)
+  | MSingle, TKey (Some KInformal) _ _ => true
+  (* a custom key with list rules is written as a unique_string foreign key, which reads back informal *)
+  | MSingle, TKey (Some (KCustom p)) _ l => pat_plain (Some p) && negb (is_some l)
+  | _, TKey (Some _) _ _ => false
+  | MSingle, _ => true
+  (* inside an array or a map there is no (j5.ext.v1.field) of the item *)
+  | _, TDate (Some _) _ | _, TDecimal (Some _) _ => false
+  | _, TObject true => false
+  | _, TAny od ts _ => negb od && match ts with [] => true | _ => false end
+  | _, _ => true
+  end.
+
+Definition rt_ok (d : prop) : bool :=
+  match p_ty d with
+  | PSingle t => rt_fty MSingle t
+  | PArray _ _ t => rt_fty MArray t && negb (p_opt d)
+  | PMap _ t => rt_fty MMap t && negb (p_opt d)
+  end.
+
+
+(* what the reader looks at: everything but the field's presence *)
+Definition c04_proj (o : fout) : fout :=
+  FO (fo_json o) (fo_number o) (fo_kind o) (fo_rep o) (fo_opt o) false (fo_val o)
+     (fo_ext o) (fo_list o) (fo_key o) (fo_desc o).
